@@ -64,6 +64,13 @@ Qed.
 Lemma p_atom_denote a : p_atom (denote a) = print_atom a.
 Proof. unfold denote. destruct (a_ver a); destruct (a_slot a); reflexivity. Qed.
 
+Lemma n012 b : b <= 2 -> b = 0 \/ b = 1 \/ b = 2.
+Proof. lia. Qed.
+Lemma n0123456 o : o <= 6 -> o = 0 \/ o = 1 \/ o = 2 \/ o = 3 \/ o = 4 \/ o = 5 \/ o = 6.
+Proof. lia. Qed.
+Lemma len_snoc_gt1 (c : ascii) (w : bytes) (x : ascii) : Nat.ltb 1 (length ((c :: w) ++ [x])) = true.
+Proof. apply Nat.ltb_lt. rewrite app_length. cbn [length]. lia. Qed.
+
 Lemma print_atom_head a : wf_atom true true a = true ->
   exists c0 t, print_atom a = c0 :: t /\
     (is 40 c0 || is 41 c0) = false /\ (is 124 c0 || is 94 c0 || is 63 c0) = false /\ not_ws c0 = true.
@@ -74,12 +81,10 @@ Proof.
   destruct (print_atom a) as [|c0 t] eqn:Ep; [congruence|]. exists c0, t. split; [reflexivity|].
   assert (Hhead : (is 33 c0 || is 60 c0 || is 61 c0 || is 62 c0 || is 126 c0 || name_head c0) = true).
   { unfold print_atom in Ep.
-    assert (Hc : a_block a = 0 \/ a_block a = 1 \/ a_block a = 2) by lia.
-    destruct Hc as [ Hb | [ Hb | Hb ] ]; rewrite Hb in Ep; cbn [print_block N.eqb Pos.eqb app] in Ep;
+    destruct (n012 _ Hwf) as [ Hb | [ Hb | Hb ] ]; rewrite Hb in Ep; cbn [print_block N.eqb Pos.eqb app] in Ep;
       try (injection Ep as <- _; reflexivity).
     assert (Ho : a_op a <= 6) by (apply N.leb_le; assumption).
-    assert (Hd : a_op a = 0 \/ a_op a = 1 \/ a_op a = 2 \/ a_op a = 3 \/ a_op a = 4 \/ a_op a = 5 \/ a_op a = 6) by lia.
-    destruct Hd as [ Ho' | [ Ho' | [ Ho' | [ Ho' | [ Ho' | [ Ho' | Ho' ] ] ] ] ] ]; rewrite Ho' in Ep; cbn [print_op N.eqb Pos.eqb app] in Ep;
+    destruct (n0123456 _ Ho) as [ Ho' | [ Ho' | [ Ho' | [ Ho' | [ Ho' | [ Ho' | Ho' ] ] ] ] ] ]; rewrite Ho' in Ep; cbn [print_op N.eqb Pos.eqb app] in Ep;
       try (injection Ep as <- _; reflexivity).
     assert (W : wfcn a) by (constructor; [destruct (a_cat a); auto|assumption]).
     destruct W as [Wc Wn]. unfold print_catname, print_cat in Ep.
@@ -137,7 +142,7 @@ Proof.
   cbn [forallb] in Hfw. apply andb_true_iff in Hfw as [Hfc Hfw'].
   destruct (Hfn c Hfc) as (_ & C33 & C4 & C5).
   assert (Hrl : removelast ((c :: w) ++ [nb 63]) = c :: w) by apply removelast_last.
-  assert (Hlen : Nat.ltb 1 (length ((c :: w) ++ [nb 63])) = true) by (apply Nat.ltb_lt; rewrite app_length; cbn [length]; lia).
+  pose proof (len_snoc_gt1 c w (nb 63)) as Hlen.
   destruct neg; cbn [app].
   - pose proof (get_token_classify (nb 33) (c :: w ++ [nb 63]) [] ltac:(cbn [forallb]; exact Hw) (or_introl eq_refl)) as E.
     rewrite app_nil_r in E. rewrite E. unfold classify. cbn [tl].
